@@ -39,7 +39,11 @@ CmBeginCore(class, base, declared) ==
 
 \* ep returned (no panic); ok = it reported success; nopool = the constructor
 \* handed back no pool; post = the installed set observed afterwards
-CmSubmitCore(ep, ok, nopool, post, unchangedRun) ==
+\* B = what is installed at the moment of the submission: cbase, or nothing when the pool was cleared before
+\* runOK = a sort-model run afterwards showed exactly the expected rules, each once, with their bodies, in
+\*         non-increasing order of their saliences (expected: B after a rejection; after a success what the generator
+\*         declared - where it declared something - replaced or merged as requested)
+CmSubmitCoreB(ep, ok, nopool, post, runOK, B) ==
   /\ ep \in EPs
   /\ cclass = "valid" => ok
   /\ cclass \in {"dup", "blank"} => ~ok
@@ -48,15 +52,17 @@ CmSubmitCore(ep, ok, nopool, post, unchangedRun) ==
   /\ IF ~ok
      THEN /\ IF ep = "pool_new" THEN nopool
              ELSE /\ ~nopool
-                  /\ AsF(post) = cbase          \* names, saliences, descriptions unchanged
-                  /\ unchangedRun               \* bodies and order unchanged (observed by running)
+                  /\ AsF(post) = B              \* names, saliences, descriptions unchanged
+                  /\ runOK                      \* bodies and order unchanged (observed by running)
           /\ cden' = cden /\ cdk' = cdk
      ELSE /\ ~nopool
           /\ LET D == IF cdk THEN cden ELSE AsF(post) IN
              /\ ~cdk => ep = "builder_full"      \* the driver submits there first
              /\ cden' = D /\ cdk' = TRUE
-             /\ IF ep \in FullEPs THEN AsF(post) = D ELSE AsF(post) = D @@ cbase
+             /\ IF ep \in FullEPs THEN AsF(post) = D ELSE AsF(post) = D @@ B
+             /\ runOK
   /\ UNCHANGED <<cbase, cclass>>
+CmSubmitCore(ep, ok, nopool, post, runOK) == CmSubmitCoreB(ep, ok, nopool, post, runOK, cbase)
 
 -----------------------------------------------------------------------------
 (* Model: what the five entry points may do with one text *)
